@@ -66,7 +66,9 @@ def make_case(rng):
     cfg_id = rng.randrange(len(llmon.TOKCFGS))
     cfg = llmon.TOKCFGS[cfg_id]
     terms = rng.sample(cfg.terminals, min(len(cfg.terminals), rng.choice([2, 3, 4, 4])))
-    if rng.random() < 0.25:
+    if rng.random() < 0.35:
+        if len(cfg.terminals) >= 8:
+            terms = rng.sample(cfg.terminals, rng.choice([4, 5, 6]))
         prods = gram.gen_prefix_group_grammar(rng, terms)
     else:
         prods = gram.gen_grammar(rng, terms, max_alts=rng.choice([3, 4, 4, 6, 7]))
